@@ -216,3 +216,31 @@ Proof.
   - destruct H as [Ha [Hb _]]. split; assumption.
   - destruct H as [Ha [Hb _]]. split; assumption.
 Qed.
+
+(* ------------------------------------------------------------------ object stream index *)
+
+Lemma indexed_ok_spec : forall arr_nil len index,
+  indexed_ok arr_nil len index = true <-> arr_nil = false /\ (0 <= index < len)%Z.
+Proof.
+  intros arr_nil len index. unfold indexed_ok. destruct arr_nil; simpl.
+  - split; [discriminate | intros [H _]; discriminate].
+  - destruct (Z.ltb_spec index 0) as [Ha|Ha]; destruct (Z.leb_spec len index) as [Hb|Hb]; simpl; split; intros Hc;
+      try discriminate; try (destruct Hc as [_ Hc]; lia); try reflexivity; try (split; [reflexivity | lia]).
+Qed.
+
+(* whenever the guard lets an index through, the slice access is in bounds: for EVERY int, also the
+   negative ones an 8 byte xref stream field with the top bit set decodes to *)
+Lemma indexed_ok_in_bounds : forall (A : Type) (arr : list A) index,
+  indexed_ok false (Z.of_nat (length arr)) index = true ->
+  exists x, nth_error arr (Z.to_nat index) = Some x.
+Proof.
+  intros A arr index H. apply indexed_ok_spec in H. destruct H as [_ H].
+  destruct (nth_error arr (Z.to_nat index)) as [x|] eqn:E; [exists x; reflexivity|].
+  apply nth_error_None in E. lia.
+Qed.
+
+Lemma buf_top_bit_negative :
+  buf_to_int64 [128; 0; 0; 0; 0; 0; 0; 0]%N = (-9223372036854775808)%Z
+  /\ indexed_ok false 4 (buf_to_int64 [128; 0; 0; 0; 0; 0; 0; 0]%N) = false
+  /\ buf_to_int64 [255; 255]%N = 65535%Z.
+Proof. vm_compute. repeat split; reflexivity. Qed.
